@@ -47,3 +47,13 @@ func VerifReadUserFile(filename string) (map[string]string, error) { return read
 // VerifVersion is the Version string the hook puts into the conf it passes to ruleTable.Update
 // (reload histories use several).
 var VerifVersion = "verif"
+
+// LoadFile runs the module's real reload entry point loadConfData (AuthBasicConfLoad + readUserFile) on a rule file.
+func (v *VerifModule) LoadFile(path string) error {
+	return v.m.loadConfData(map[string][]string{"path": {path}})
+}
+
+// Run runs authBasicHandler on req with whatever table is installed.
+func (v *VerifModule) Run(req *bfe_basic.Request) (int, *bfe_http.Response) {
+	return v.m.authBasicHandler(req)
+}
